@@ -84,7 +84,54 @@ def _env_of(ex: SymExec, what: str, subject: str) -> list[Any]:
     return [env for subj, env, _ in _visits(ex, what) if show(subj) == subject]
 
 
+def _every_expression_read(ctx: Ctx):
+    """The use analysis walks every expression of a statement with the default visitor; the definitions analysis overrides
+    each statement visitor, and an expression field it forgets to visit is one whose uses (and whose comprehension targets)
+    have no definition: `assert c, [t for t in xs]` is accepted and fails with KeyError on every call.  For every
+    statement class, each field of the class that holds an expression or a block is handed to a visit by its visitor in
+    `_ReachingDefs`."""
+    L = lang(ctx.repo)
+    meths = ctx.repo.methods(RD, '_ReachingDefs', inherited=False)
+    n = 0
+    for m, (_, _, fn) in sorted(meths.items()):
+        if not m.startswith('_visit_') or len(fn.args.args) < 2 or fn.args.args[1].annotation is None:
+            continue
+        cname = dotted(fn.args.args[1].annotation) or ''
+        cdef = L.classes.get(cname)
+        if cdef is None or not L.is_a(cname, 'Stmt'):
+            continue
+        param = fn.args.args[1].arg
+        fields = []
+        for s in cdef.body:
+            if isinstance(s, ast.AnnAssign) and isinstance(s.target, ast.Name):
+                kinds = {x.id for x in ast.walk(s.annotation) if isinstance(x, ast.Name)}
+                if kinds & {'Expr', 'StmtBlock'}:
+                    fields.append(s.target.id)
+        visited = set()
+        for k in calls_in(fn):
+            if (call_name(k) or '').startswith(('self._visit_', 'super()._visit_')):
+                for a in k.args:
+                    for x in ast.walk(a):
+                        if isinstance(x, ast.Attribute) and isinstance(x.value, ast.Name) and x.value.id == param:
+                            visited.add(x.attr)
+                    if isinstance(a, ast.Name) and a.id == param:
+                        visited |= set(fields)          # the whole statement handed on
+        # a field read in a loop header / comprehension of the method (`for e in stmt.indices: self._visit_expr(e, ..)`)
+        for x in ast.walk(fn):
+            if isinstance(x, (ast.For, ast.comprehension)) and isinstance(x.iter, ast.Attribute) and isinstance(x.iter.value, ast.Name) and x.iter.value.id == param:
+                visited.add(x.iter.attr)
+        for f_ in fields:
+            n += 1
+            ctx.check(f_ in visited, RD, fn, f'_ReachingDefs.{m}', f'{cname}.{f_} is read by the definitions analysis',
+                      f'`{param}.{f_}` is never visited: a name read (or a comprehension target bound) there has no definition -- `assert len(xs) > 0, [t for t in xs]` is accepted and '
+                      'every call fails with KeyError')
+    if n < 12:
+        raise ShapeError(f'only {n} expression fields of statement classes found')
+
+
 def d1_reaching_defs(ctx: Ctx):
+    _every_expression_read(ctx)
+
     def run(q: str, passes: int = 1) -> tuple[ast.FunctionDef, SymExec]:
         # a loop over names extends the environment once per name: one symbolic pass reads it;
         # two passes are used where the second iteration sees what the first left (blocks, generators)
@@ -1577,6 +1624,8 @@ RULES = [
 from ..selftest import Mutant  # noqa: E402
 
 MUTANTS = [
+    Mutant('assert-message-not-read-by-the-definitions-analysis', RD, "        if stmt.msg is not None:\n            # the message is an expression of the program too: a comprehension\n            # in it binds targets that its element reads\n            self._visit_expr(stmt.msg, ctx)\n", "", 'C13.D1',
+           'finding F134 before its repair: assert c, [t for t in xs] is accepted and fails with KeyError'),
     Mutant('unified-lists-keep-the-more-specific-length', 'fpy2/analysis/type_infer.py', "    if a == b:\n        return a\n    return None\n",
            "    if isinstance(a, int):\n        return a\n    if isinstance(b, int):\n        return b\n    return a if a is not None else b\n", 'C13.G4',
            'finding F124 before its repair: zs = A if c else B typed with the length of A'),
